@@ -999,6 +999,31 @@ func main() {
 		"real_binary_invocations": e.toolRuns,
 		"timings":                 timings,
 	}
+	// the behaviour of the emitted codecs: checks/c03 has just run on the same corpus and generator as
+	// a part of this property (run.sh: VERIF_REPORT_AS=C16) and reported its violations itself
+	if b, err := os.ReadFile(filepath.Join(common.Root(), "evidence", "C16.codec.json")); err == nil {
+		var ev struct {
+			Tier     string         `json:"tier"`
+			Coverage map[string]any `json:"coverage"`
+		}
+		if json.Unmarshal(b, &ev) == nil && ev.Tier == run.Tier {
+			num := func(k string) int64 { f, _ := ev.Coverage[k].(float64); return int64(f) }
+			part := map[string]any{"rule": "round trips and schema conformance of the codecs emitted for the corpus (the C03 exploration, run on this generator)"}
+			for _, k := range []string{"states", "transitions", "traces_validated_against_impl", "evaluations", "distinct_nontrivial"} {
+				part[k] = num(k)
+				switch x := cov[k].(type) {
+				case int64:
+					cov[k] = x + num(k)
+				case int:
+					cov[k] = int64(x) + num(k)
+				}
+			}
+			if ex, _ := ev.Coverage["exhaustive"].(bool); !ex {
+				cov["exhaustive"] = false
+			}
+			cov["emitted_codec_behaviour"] = part
+		}
+	}
 	if !pb.complete {
 		run.Note("malformed-input enumeration stopped at the internal deadline: %d of %d cases run", inproc, pb.total)
 	}
